@@ -864,12 +864,94 @@ def _noop(*a, **k):
     return None
 
 
+class NormStub:
+    """scipy.stats.norm: the quantile function of a symbolic probability is an uninterpreted atom ``normppf(u)``
+    (finite for 0 < u < 1; its shadow is the real quantile)"""
+
+    def ppf(self, q, *a, **k):
+        from scipy.stats import norm as real_norm
+        if a or k or not _any_sym((q,)):
+            return real_norm.ppf(q, *a, **k)
+        if 'normppf' not in core._SH_FUN:
+            core.register_atom_kind('normppf', lambda s: float(real_norm.ppf(min(max(s, 1e-12), 1 - 1e-12))))
+
+        def one(v):
+            v = R.lift(v)
+            if v.tag is not None:
+                raise Unsupported('norm.ppf of nan/inf')
+            if v.is_const and v.c == Fraction(1, 2):
+                return ZERO
+            return core.make_atom('normppf', v)
+        if isinstance(q, R):
+            return one(q)
+        return A._elem(one, real_np.asarray(q, dtype=object))
+
+    def __getattr__(self, name):
+        from scipy.stats import norm as real_norm
+        return getattr(real_norm, name)
+
+
+def ldl_model(a, lower=True, hermitian=True, **kw):
+    """scipy.linalg.ldl on a symbolic symmetric matrix: the unpivoted exact factorisation L D L^T = A with unit
+    lower-triangular L and diagonal D (one instance of LAPACK's contract for positive semi-definite input: a zero
+    pivot needs a zero residual column, anything else is Unsupported)"""
+    import scipy.linalg as real_sl
+    a = real_np.asarray(a)
+    if a.dtype != object:
+        return real_sl.ldl(a, lower=lower, hermitian=hermitian, **kw)
+    if not lower or kw:
+        raise Unsupported('ldl options')
+    n = a.shape[0]
+    L = [[ONE if i == j else ZERO for j in range(n)] for i in range(n)]
+    d = [ZERO] * n
+    for j in range(n):
+        dj = R.lift(a[j, j])
+        for k in range(j):
+            dj = dj - L[j][k] * L[j][k] * d[k]
+        zero = bool(dj == 0)
+        d[j] = ZERO if zero else dj
+        for i in range(j + 1, n):
+            r = R.lift(a[i, j])
+            for k in range(j):
+                r = r - L[i][k] * L[j][k] * d[k]
+            if zero:
+                if not bool(r == 0):
+                    raise Unsupported('ldl: zero pivot with non-zero column (indefinite matrix)')
+                L[i][j] = ZERO
+            else:
+                L[i][j] = r / dj
+    Lm = real_np.empty((n, n), dtype=object)
+    Dm = real_np.empty((n, n), dtype=object)
+    for i in range(n):
+        for j in range(n):
+            Lm[i, j] = L[i][j]
+            Dm[i, j] = d[i] if i == j else ZERO
+    return wrap(Lm), wrap(Dm), real_np.arange(n)
+
+
+class _ScipyLinalgProxy:
+    """stands in for scipy.linalg (``import scipy.linalg as sl``)"""
+    ldl = staticmethod(ldl_model)
+
+    def __getattr__(self, name):
+        import scipy.linalg as real_sl
+        f = getattr(real_sl, name)
+        if callable(f) and not isinstance(f, type):
+            def g(*a, **k):
+                if _any_sym(a, k):
+                    raise Unsupported(f'scipy.linalg.{name} on symbolic data')
+                return f(*a, **k)
+            return g
+        return f
+
+
 class _StatsProxy:
     """stands in for the scipy.stats module"""
     def __init__(self):
         import scipy.stats as sst
         self._m = sst
         self.t = TDistStub()
+        self.norm = NormStub()
 
     def rankdata(self, a, method='average', **k):
         return A.rankdata(a, method, **k) if _any_sym((a,)) else self._m.rankdata(a, method, **k)
@@ -898,7 +980,7 @@ def install(extra_modules=()):
     import importlib
     import rsatoolbox
     for m in (('rdm', 'data', 'model', 'inference', 'util', 'util.searchlight', 'util.pooling',
-              'util.inference_util', 'data.noise', 'rdm.calc_unbalanced', 'io.fmriprep', 'io.spm', 'io.mne')
+              'util.inference_util', 'data.noise', 'rdm.calc_unbalanced', 'io.fmriprep', 'io.spm', 'io.mne', 'simulation')
               + tuple(extra_modules)):
         importlib.import_module('rsatoolbox.' + m)
     import scipy.stats as sst
@@ -914,6 +996,8 @@ def install(extra_modules=()):
     nx_proxy = NxProxy()
     import scipy as real_scipy
     import scipy.sparse as real_sparse
+    import scipy.linalg as real_sl
+    sl_proxy = _ScipyLinalgProxy()
     import rsatoolbox.util.matrix as rmat
     real_pcs = rmat.pairwise_contrast_sparse
 
@@ -934,6 +1018,8 @@ def install(extra_modules=()):
                 new = scipy_proxy
             elif gval is real_sparse:
                 new = scipy_proxy.sparse
+            elif gval is real_sl:
+                new = sl_proxy
             elif gval is real_pcs:
                 new = pcs_dense
             elif gval is real_sparse.csr_matrix or gval is real_sparse.coo_matrix and not name.endswith('util.matrix'):
